@@ -21,11 +21,12 @@ sys.dont_write_bytecode = True
 
 # property -> props modules that contribute units
 _DEP = ['props.c17', 'props.c10']       # callee contracts (L1, register views, L2) are discharged as part of every dependent claim
+_MEM = ['props.c13', 'props.c14', 'props.c15', 'props.c16']    # the memory path below the accessor contracts (meta['also'] of its units)
 PROP_MODULES = {
-    'C01': ['props.step'] + _DEP, 'C02': ['props.step'] + _DEP, 'C03': ['props.c03'] + _DEP, 'C04': ['props.step'] + _DEP,
+    'C01': ['props.step'] + _DEP, 'C02': ['props.step', 'props.c13', 'props.c16'] + _DEP, 'C03': ['props.c03', 'props.c13', 'props.c16'] + _DEP, 'C04': ['props.step'] + _DEP,
     'C05': ['props.c05'] + _DEP, 'C06': ['props.step', 'props.tablecheck'] + _DEP, 'C07': ['props.step', 'props.tablecheck'] + _DEP, 'C08': ['props.c08', 'props.c05'] + _DEP,
     'C09': ['props.step'] + _DEP, 'C10': ['props.c10', 'props.c17'], 'C11': ['props.c11'] + _DEP, 'C12': ['props.c12'] + _DEP,
-    'C13': ['props.c13'], 'C15': ['props.c15'], 'C20': ['props.c20'] + _DEP, 'C14': ['props.c14', 'props.c13'], 'C16': ['props.c16'], 'C17': ['props.c17'], 'C18': ['props.step'] + _DEP, 'C19': ['props.step'] + _DEP,
+    'C13': ['props.c13', 'props.c16'], 'C15': ['props.c15'], 'C20': ['props.c20'] + _MEM + _DEP, 'C14': ['props.c14', 'props.c13'], 'C16': ['props.c16'], 'C17': ['props.c17'], 'C18': ['props.step'] + _MEM + _DEP, 'C19': ['props.step'] + _MEM + _DEP,
 }
 
 REPLAY_PY = os.environ.get('VERIF_REPLAY_PYTHON', '/venv/bin/python')
@@ -55,7 +56,7 @@ def collect_units(prop, tier):
     for mn in PROP_MODULES.get(prop, []):
         mod = importlib.import_module(mn)
         for u in mod.units(tier):
-            if prop in u.props and u.uid not in seen:
+            if (prop in u.props or prop in (u.meta.get('also') or {})) and u.uid not in seen:
                 seen.add(u.uid)
                 u.module = mn
                 units.append(u)
